@@ -102,8 +102,59 @@ class Prov:
         if k in ('copy', 'move'):
             return self.place(f, op['pl'], at)
         if k == 'const':
+            if op.get('ev'):
+                return ('const', op['ty'], op['v'], op.get('fn'), op['ev'])
             return ('const', op['ty'], op['v'], op.get('fn'))
         return ('unknown', 'operand')
+
+    def fold_int(self, t, depth=12):
+        """integer value of a term built from integer literals with + - * (incl. the checked forms), else None"""
+        if depth == 0:
+            return None
+        v = const_int(t)
+        if v is not None:
+            return v
+        if t[0] == 'field' and t[2] in (0, '0') and t[1][0] == 'bin':
+            return self.fold_int(t[1], depth - 1)
+        if t[0] == 'bin':
+            a, b = self.fold_int(t[2], depth - 1), self.fold_int(t[3], depth - 1)
+            if a is None or b is None:
+                return None
+            op = t[1].replace('WithOverflow', '').replace('Unchecked', '')
+            if op == 'Add':
+                return a + b
+            if op == 'Sub':
+                return a - b
+            if op == 'Mul':
+                return a * b
+            if op == 'Shl':
+                return a << b
+            return None
+        if t[0] == 'cast':
+            return self.fold_int(t[1], depth - 1)
+        if t[0] == 'phi':
+            vals = {self.fold_int(x, depth - 1) for x in t[1]}
+            return vals.pop() if len(vals) == 1 else None
+        return None
+
+    def duration_ms(self, t):
+        """milliseconds of a constant Duration term: a named constant (evaluated by rustc) or Duration::from_secs/millis(const)"""
+        if t[0] == 'const' and len(t) > 4 and str(t[4]).startswith('bytes:') and 'Duration' in t[1]:
+            raw = bytes.fromhex(t[4][6:])
+            if len(raw) >= 12:
+                return int.from_bytes(raw[0:8], 'little') * 1000 + int.from_bytes(raw[8:12], 'little') // 1000000
+        rs = self.root(t)
+        if len(rs) == 1:
+            r = rs[0][0]
+            if r[0] == 'const' and r is not t:
+                return self.duration_ms(r)
+            if self.is_call(r, 'Duration::from_secs', 'Duration::from_millis', 'Duration::from_micros', 'Duration::from_nanos'):
+                n = self.fold_int(self.args_of(r)[0])
+                if n is None:
+                    return None
+                name = self.call_name(self.unbound(r))
+                return n * 1000 if name.endswith('from_secs') else (n if name.endswith('from_millis') else (n // 1000 if name.endswith('from_micros') else n // 1000000))
+        return None
 
     def place(self, f, pl, at=None):
         base = self.local(f, pl['l'], pl['p'], at)
